@@ -669,6 +669,11 @@ func c06Literal(r *fw.Rand) string {
 	}
 	sign := []string{"", "", "-", "-", "+"}[r.Intn(5)]
 	var lit string
+	if r.Chance(1, 12) {
+		// malformed or unusual spellings made of the number alphabet only
+		odd := []string{"e5", "E5", "e", "E", "-e1", ".", "-", "+", "-.", "1e", "1e+", "1e-", "1.2.3", "1-2", "--1", "+-1", "-+1", "1e1e1", ".e1", "1.e1", ".5", "5.", "-.5", "+.5", "00", "-00.00", "1e0001", "1E+0", "..", "e+", "+e", "1+1", "1e1.5", "9e999", "-9e999", "1e-999"}
+		return odd[r.Intn(len(odd))]
+	}
 	switch r.Intn(6) {
 	case 0, 1: // integers of 1..25 digits, most often around the widths of the integer types
 		n := []int{1, 2, 5, 9, 10, 11, 15, 16, 17, 18, 19, 19, 19, 20, 20, 21, 22, 25}[r.Intn(18)]
